@@ -172,14 +172,36 @@ func emitConcFacts(repo string) (string, error) {
 	}
 
 	// ---- classify writes ------------------------------------------------------------------------
-	inOnce := func(fn *ssa.Function) []onceInfo {
+	var inOnceRec func(fn *ssa.Function, visiting map[*ssa.Function]bool) []onceInfo
+	inOnceRec = func(fn *ssa.Function, visiting map[*ssa.Function]bool) []onceInfo {
 		for f := fn; f != nil; f = f.Parent() {
 			if oi, ok := a.once[f]; ok {
 				return oi
 			}
 		}
-		return nil
+		// not itself given to a Do: under a Once all the same when EVERY caller is (and under the same one)
+		if visiting[fn] || len(a.callersOf[fn]) == 0 || len(visiting) > 6 {
+			return nil
+		}
+		visiting[fn] = true
+		defer delete(visiting, fn)
+		var res []onceInfo
+		for c := range a.callersOf[fn] {
+			if c == nil {
+				return nil
+			}
+			oi := inOnceRec(c, visiting)
+			if oi == nil {
+				return nil
+			}
+			if res != nil && (len(res) == 0 || len(oi) == 0 || res[0].name != oi[0].name) {
+				return nil
+			}
+			res = oi
+		}
+		return res
 	}
+	inOnce := func(fn *ssa.Function) []onceInfo { return inOnceRec(fn, map[*ssa.Function]bool{}) }
 	seen := map[string]bool{}
 	var outs []accessOut
 	for _, w := range a.writes {
@@ -352,7 +374,58 @@ func emitConcFacts(repo string) (string, error) {
 				if !gset[guarded{shortType(t), fieldName(t, fa.Field), ""}] {
 					continue
 				}
+				// the object read: when it can only be a request-local one (the request's own writer, its context …)
+				// no other goroutine has it and the read needs no Once
+				baseLocal, baseSeen := true, false
+				for k := range a.insts {
+					if k.fn != fn || !isServe(k.ph) {
+						continue
+					}
+					for _, l := range a.val(fa.X, k.ph).list {
+						if l.o.stack {
+							continue
+						}
+						baseSeen = true
+						if !isLocal(l.o) {
+							baseLocal = false
+						}
+					}
+				}
+				if baseSeen && baseLocal {
+					continue
+				}
 				after := inOnce(fn) != nil
+				if !after {
+					// a dominating call of a METHOD on the same base whose first block runs base.<once>.Do(...): the Do
+					// is then behind the read just as well (a helper that does the Do, called before the read)
+					for _, b2 := range fn.Blocks {
+						for j, in2 := range b2.Instrs {
+							c, ok := in2.(*ssa.Call)
+							if !ok || len(c.Common().Args) == 0 {
+								continue
+							}
+							g := c.Common().StaticCallee()
+							if g == nil || len(g.Blocks) == 0 || len(g.Params) == 0 || !sameBase(c.Common().Args[0], fa.X) {
+								continue
+							}
+							does := false
+							for _, gi := range g.Blocks[0].Instrs {
+								gc, ok := gi.(*ssa.Call)
+								if !ok {
+									continue
+								}
+								if sc := gc.Common().StaticCallee(); sc != nil && sc.String() == "(*sync.Once).Do" {
+									if ofa, ok := gc.Common().Args[0].(*ssa.FieldAddr); ok && isParamValue(ofa.X, g.Params[0]) {
+										does = true
+									}
+								}
+							}
+							if does && ((b2 == b && j < idx) || (b2 != b && b2.Dominates(b))) {
+								after = true
+							}
+						}
+					}
+				}
 				if !after {
 					// a call x.<once>.Do(...) on the same base value that dominates this read
 					for _, b2 := range fn.Blocks {
@@ -532,4 +605,28 @@ func sameBase(x, y ssa.Value) bool {
 		}
 	}
 	return stores == 1
+}
+
+// isParamValue: v is the parameter p, or a load of the heap cell the parameter was copied into because a closure
+// captures it (`t0 = new T (p); *t0 = p; … *t0 …`)
+func isParamValue(v ssa.Value, p *ssa.Parameter) bool {
+	if v == ssa.Value(p) {
+		return true
+	}
+	u, ok := v.(*ssa.UnOp)
+	if !ok || u.Op != token.MUL {
+		return false
+	}
+	al, ok := u.X.(*ssa.Alloc)
+	if !ok {
+		return false
+	}
+	stores, fromParam := 0, false
+	for _, r := range *al.Referrers() {
+		if st, ok := r.(*ssa.Store); ok && st.Addr == ssa.Value(al) {
+			stores++
+			fromParam = st.Val == ssa.Value(p)
+		}
+	}
+	return stores == 1 && fromParam
 }
